@@ -8,7 +8,7 @@ git -C /repo worktree remove --force $W 2>/dev/null
 git -C /repo worktree add --detach $W HEAD >/dev/null 2>&1 || exit 3
 export SCARED_REPO=$W VERIF_EVIDENCE_DIR=/tmp/seedsweep_evidence
 printf "seed\texit\tverdict\twall_s\n" > $OUT
-for d in /verif/seeded/C??/A /verif/seeded/C??/B /verif/seeded/C??/C /verif/seeded/C??/D; do
+for d in /verif/seeded/C??/A /verif/seeded/C??/B /verif/seeded/C??/C /verif/seeded/C??/D /verif/seeded/C??/E /verif/seeded/C??/F; do
   [ -f $d/patch.diff ] || continue
   id=$(echo $d | cut -d/ -f4); x=$(basename $d)
   cd $W && git checkout -q -- . && git apply $d/patch.diff 2>/dev/null || { printf "$id/$x\t-\tpatch-does-not-apply\t0\n" >> $OUT; continue; }
